@@ -55,17 +55,27 @@ def main():
     viol = {}
 
     def violation(cls, what, k, w):
-        v = viol.setdefault(cls, {"class": "decode1090:" + cls, "what": what, "count": 0, "witness": {"kind": "decode1090", "window_ms": w, "history": [list(x) for x in hs[k]]}})
+        v = viol.setdefault(cls, {"class": "decode1090:" + cls, "what": what, "count": 0, "witness": {"kind": "decode1090", "window_ms": w, "format": fmt, "history": [list(x) for x in hs[k]]}})
         v["count"] += 1
 
-    for w in ([replay["window_ms"]] if replay else [0, 250, 400] if tier == "quick" else [0, 250, 400, 450]):
-        path = os.path.join(scratch, f"in_{w}.jsonl")
+    # input formats: "metadata" = one metadata entry per line (reception id in nanoseconds); "legacy" = the older
+    # recording format, a top-level rssi and no metadata (reception id in the rssi value, exact in f32)
+    if replay:
+        runs = [(replay["window_ms"], replay.get("format", "metadata"))]
+    else:
+        ws = [0, 250, 400] if tier == "quick" else [0, 250, 400, 450]
+        runs = [(w, "metadata") for w in ws] + [(w, "legacy") for w in ([0, 400] if tier == "quick" else ws)]
+    for w, fmt in runs:
+        path = os.path.join(scratch, f"in_{w}_{fmt}.jsonl")
         with open(path, "w") as f:
             for k, h in enumerate(hs):
                 base = 1_700_000_000 + 100 * k
                 for i, (fr, rx, ms) in enumerate(h):
                     t = base + ms / 1000.0
-                    f.write(json.dumps({"timestamp": t, "frame": frame(k, fr).hex(), "metadata": [{"system_timestamp": t, "nanoseconds": k * 16 + i, "serial": rx + 1}]}) + "\n")
+                    if fmt == "legacy":
+                        f.write(json.dumps({"timestamp": t, "rssi": -float(k * 16 + i + 1), "frame": frame(k, fr).hex()}) + "\n")
+                    else:
+                        f.write(json.dumps({"timestamp": t, "frame": frame(k, fr).hex(), "metadata": [{"system_timestamp": t, "nanoseconds": k * 16 + i, "serial": rx + 1}]}) + "\n")
         p = subprocess.run([exe, "--input", path, "--deduplication", str(w)], stdout=subprocess.PIPE, stderr=subprocess.PIPE, text=True, timeout=3000)
         if p.returncode != 0:
             rep["violations"].append({"class": "decode1090:crash", "what": f"decode1090 exited with {p.returncode}: {p.stderr[-300:]}", "count": 1, "witness": {"kind": "decode1090", "window_ms": w, "history": []}})
@@ -81,7 +91,11 @@ def main():
             fb = bytes.fromhex(j["frame"])
             a = (fb[1] << 16) | (fb[2] << 8) | fb[3]
             k = a // 4
-            per.setdefault(k, []).append((fb, j["timestamp"], [m.get("nanoseconds") for m in j["metadata"]]))
+            if fmt == "legacy":
+                ids = [int(round(-m["rssi"])) - 1 if m.get("rssi") is not None else None for m in j.get("metadata", [])]
+            else:
+                ids = [m.get("nanoseconds") for m in j.get("metadata", [])]
+            per.setdefault(k, []).append((fb, j["timestamp"], ids))
             order.append(k)
         if order != sorted(order):
             rep["violations"].append({"class": "decode1090:records-out-of-order", "what": "records of a later history left before records of an earlier one", "count": 1, "witness": {"kind": "decode1090", "window_ms": w, "history": []}})
@@ -128,7 +142,7 @@ def main():
                 if c == 0 and fr != 3:
                     violation("reception-lost", f"reception {i} ({ms} ms) is in no record although the input ended (decode1090 flushes all groups)", k, w)
             rep["executions"] += 1
-        rep["windows"].append(w)
+        rep["windows"].append(f"{w}:{fmt}")
     rep["violations"].extend(viol.values())
     rep["wall_s"] = round(time.time() - t0, 2)
     print(json.dumps(rep))
